@@ -630,14 +630,47 @@ def _norm(x, ord=None, axis=None, keepdims=False):
         raise RealisationError(f"norm ord={ord}")
 
     if axis is None:
+        if x.ndim == 2:
+            return _matrix_norm(x, ord)
         if x.ndim != 1:
-            raise RealisationError("matrix norm")
+            raise RealisationError("norm of an array of rank > 2")
         return norm1d(x)
     moved = np.moveaxis(x, axis, -1)
     out = np.empty(moved.shape[:-1], dtype=object)
     for idx in np.ndindex(*moved.shape[:-1]):
         out[idx] = norm1d(moved[idx])
     return wrap(out)
+
+
+def _matrix_norm(x, ord):
+    """numpy's matrix norms for small symbolic matrices: 'fro'/None, 1 (max column sum), inf (max row sum), 2 (spectral, up to 2x2 /
+    single row / single column, closed form)."""
+    r, c = x.shape
+    rows = [[x[i, j] for j in range(c)] for i in range(r)]
+
+    def fold(vals, f):
+        acc = vals[0]
+        for v in vals[1:]:
+            acc = f(acc, v)
+        return acc
+
+    if ord is None or ord == "fro":
+        return _sqrt(fold([v * v for row in rows for v in row], lambda a, b: a + b))
+    if ord == 1:
+        return fold([fold([abs(rows[i][j]) for i in range(r)], lambda a, b: a + b) for j in range(c)], _maximum)
+    if ord == np.inf:
+        return fold([fold([abs(v) for v in row], lambda a, b: a + b) for row in rows], _maximum)
+    if ord == 2:
+        if r == 1 or c == 1:
+            return _sqrt(fold([v * v for row in rows for v in row], lambda a, b: a + b))
+        if r == 2 and c == 2:
+            (a, b), (cc, d) = rows
+            # eigenvalues of A^T A: T = a^2+b^2+c^2+d^2, D = (ad - bc)^2 ; sigma_max^2 = (T + sqrt(T^2 - 4D)) / 2
+            T = a * a + b * b + cc * cc + d * d
+            det = a * d - b * cc
+            disc = _sqrt(T * T - 4.0 * (det * det))
+            return _sqrt((T + disc) / 2.0)
+    raise RealisationError(f"matrix norm ord={ord} shape={x.shape}")
 
 
 @implements(np.copy)
